@@ -6,6 +6,7 @@ import (
 	"fmt"
 	"hash/fnv"
 	"os"
+	"os/exec"
 	"path/filepath"
 	"sort"
 	"strings"
@@ -22,6 +23,9 @@ type KnownFinding struct {
 	Witness    string `json:"witness,omitempty"`
 	Status     string `json:"status"` // known | fixed
 	Commit     string `json:"commit,omitempty"`
+	ReplayPkg  string `json:"replay_pkg,omitempty"`
+	ReplayTest string `json:"replay_test,omitempty"`
+	ReplayName string `json:"replay_name,omitempty"`
 }
 
 func main() {
@@ -267,7 +271,7 @@ func (r *Report) finish(out string, start time.Time, verbose bool) {
 			nDis++
 			bySolver[o.Solver]++
 		} else {
-			if k := isKnown(o.Name); k != nil {
+			if k := isKnown(o.Name); k != nil && witnessStillFails(r.Verif, k) {
 				knownHit = append(knownHit, k)
 				nObl-- // a known finding is reported separately, not counted as an obligation of the claim
 				continue
@@ -367,6 +371,18 @@ func (r *Report) finish(out string, start time.Time, verbose bool) {
 	if violations > 0 {
 		exit(1)
 	}
+}
+
+// witnessStillFails replays the recorded witness of a known finding against the
+// real code (in-package test injected with go test -overlay): the finding only
+// masks the obligation while its own failing input still fails.
+func witnessStillFails(verif string, k *KnownFinding) bool {
+	if k.ReplayTest == "" {
+		return true
+	}
+	cmd := exec.Command(filepath.Join(verif, "tools", "runpkgtest.sh"), k.ReplayPkg, filepath.Join(verif, k.ReplayTest), k.ReplayName)
+	out, _ := cmd.CombinedOutput()
+	return strings.Contains(string(out), "--- FAIL") || strings.Contains(string(out), "panic:")
 }
 
 func namesOf(os []*Obligation) []string {
